@@ -3,7 +3,7 @@
 against it (VERIF_REPO), update meta.json's checks_fired and print the detection table. Not a MANIFEST command."""
 import json, os, re, shutil, subprocess, sys
 ROOT = os.path.dirname(os.path.dirname(os.path.abspath(__file__)))
-SCR = os.path.join(ROOT, ".work", "seedscratch")
+SCR = os.path.join(ROOT, ".work", os.environ.get("SEED_SCR", "seedscratch"))
 only = set(sys.argv[1:])
 rows = []
 for sid in sorted(os.listdir(os.path.join(ROOT, "seeded"))):
